@@ -10,7 +10,7 @@ from collections import Counter
 import vlib
 from vlib import coq_literal_bytes as cb, coq_bool, coq_list, coq_option
 
-HEADER = ('From Teleport Require Import Base.Bytes Base.Outcome Base.AList Model.Packet Model.PacketCheck.\n'
+HEADER = ('From Teleport Require Import Base.Bytes Base.Outcome Base.AList Model.Packet Model.PacketClients Model.PacketCheck.\n'
           'Local Open Scope N_scope.\n')
 
 MISMATCH = {1: 'model and code disagree on accepting / rejecting the message',
@@ -32,11 +32,13 @@ MONITOR = {11: 'a (source, destination, sequence) triple was accepted twice',
            17: 'a commitment disappeared without an accepted acknowledgement of exactly that packet',
            18: 'a second acknowledgement of the same packet was accepted',
            23: 'an acknowledgement appeared in the store that is not the one of an accepted receive of exactly that triple',
+           26: 'the acknowledgement an accepted receive wrote does not carry the callback\'s result code (1 for a failed callback) and the packet\'s fee option',
+           27: 'an accepted acknowledgement does not decode, is all zero, or names a relayer that is not registered on the sending chain (the fee could not be paid: the message must fail and keep the commitment)',
            25: 'a light client is registered under the chain\'s own name (the create proposal must be refused: fix a9e74e1)',
            19: 'an accepted receive / acknowledgement was not verified by the counterparty client for the recomputed (path, value)',
            22: 'a rejected message changed balances / bindings',
            6: 'malformed case'}
-KINDS = {'C01': {11, 12, 20, 21, 22, 6}, 'C02': {19, 12, 22, 6}, 'C04': {13, 14, 24, 25, 12, 22, 6}, 'C05': {15, 16, 17, 18, 23, 25, 6}}
+KINDS = {'C01': {11, 12, 20, 21, 22, 6}, 'C02': {19, 12, 22, 6}, 'C04': {13, 14, 24, 25, 12, 22, 6}, 'C05': {15, 16, 17, 18, 19, 23, 25, 26, 27, 6}}
 LONG = 64
 
 
@@ -111,6 +113,10 @@ def t_act(tk, a, cls, err=''):
                                                coq_list([cb(tk(c)) for c in a['addrs']]))
     if t == 'create_client':
         return '(ARegisterClient %s %s %s)' % (cb(tk(a['name'])), '0' if a['tss'] else '1', coq_bool(cls == 0))
+    if t == 'toggle_client':
+        return '(AToggleClient %s %s %s)' % (cb(tk(a['name'])), '0' if a['tss'] else '1', coq_bool(cls == 0))
+    if t == 'upgrade_client':
+        return '(AUpgradeClient %s %s %s)' % (cb(tk(a['name'])), '0' if a['tss'] else '1', coq_bool(cls == 0))
     raise RuntimeError('unknown act ' + t)
 
 
@@ -141,7 +147,8 @@ def case_term(c):
         rel = coq_list(['(%s, (%s, %s))' % (cb(tk(r['addr'])), coq_list([cb(tk(x)) for x in r['chains']]),
                                             coq_list([cb(tk(x)) for x in r['addrs']])) for r in ch['relayers']])
         cseq = coq_list(['(%s, %s)' % (cb(tk(d)), N(n)) for d, n in nums(ch['cseq'])])
-        chains.append('(mkChain %s %s %s %s %s)' % (cb(tk(ch['name'])), clients, rel, t_store(ch['store']), cseq))
+        cons = coq_list(['(%s, %s)' % (cb(tk(x['name'])), coq_list([t_height(h) for h in x.get('cons') or []])) for x in ch['clients']])
+        chains.append('(mkChain %s %s %s %s %s %s)' % (cb(tk(ch['name'])), clients, rel, t_store(ch['store']), cseq, cons))
     prev = [ch['store'] for ch in c['chains']]
     steps = []
     for st in c['steps']:
@@ -150,9 +157,11 @@ def case_term(c):
         cseq = coq_list(['(%s, %s)' % (cb(tk(d)), N(n)) for d, n in nums(o.get('cseq') or [])])
         acks = coq_list(['((%s, %s), %s)' % (cb(tk(d)), N(q), N(s)) for d, q, s in (o.get('ackstatus') or []) if str(s).isdigit()])
         emitted = coq_list([cb(tk(x)) for x in (st['act'].get('raw') or [])] if o['class'] == 0 else [])
-        steps.append('(mkOStep %d%%nat %s %s %d%%nat %s %s %s %s %s)' % (
+        wcons = coq_list([t_height(h) for h in o.get('cons') or []])
+        wack = 'None' if not o.get('wack') else '(Some (%s, %s))' % (N(o['wack'][0]), N(o['wack'][1]))
+        steps.append('(mkOStep %d%%nat %s %s %d%%nat %s %s %s %s %s %s %s)' % (
             i, N(st['env']), t_act(tk, st['act'], o['class'], o.get('err', '')), o['class'], delta(prev[i], o['store']),
-            coq_bool(o['unchanged']), cseq, acks, emitted))
+            coq_bool(o['unchanged']), cseq, acks, emitted, wcons, wack))
         prev[i] = o['store']
     orc = c['oracles']
     dec = coq_list(['(%s, (%s, %s))' % (cb(tk(e['bz'])), t_packet(tk, e['pkt']), coq_bool(e['err'])) for e in orc['decode']])
@@ -477,6 +486,24 @@ def selftest_cases(kinds, guards, multi, o7=None):
         r['steps'][c[0]]['obs']['class'] = 0
         return True
 
+    def m26(r):
+        for i in steps(r, 'recv', 0, lambda st: st['obs'].get('wack')):
+            w = r['steps'][i]['obs']['wack']
+            r['steps'][i]['obs']['wack'] = [str(int(w[0]) + 1), w[1]]
+            return True
+        return False
+
+    def m27(r):
+        acc = steps(r, 'ack', 0)
+        if not acc:
+            return False
+        for ch in r['chains']:
+            ch['relayers'] = []
+        r['steps'] = [st for st in r['steps'] if st['act']['t'] != 'reg_relayer']
+        return True
+
+    add(26, guards, m26)
+    add(27, guards, m27)
     add(25, o7 if (o7 or {}).get('spec', {}).get('o7') else None, m25)
     add(11, guards, m11)
     add(12, guards, m12)
@@ -595,7 +622,7 @@ def check(run, prop):
              'monitors; non-trivial = recv/ack/send steps, distinct by (kind, outcome, packet bytes, proof prefix)',
         distribution=top, model_mismatches=len(mm), monitor_failures_incl_o7_witness=len([f for f in ff if f[2] in kinds]),
         accepted_by_verifying_client=dict(sorted(by_client.items())),
-        transactions_with_several_sends=multi, corpus_cases_run_first=[0, 1, 2, 3, 4],
+        transactions_with_several_sends=multi, corpus_cases_run_first=[0, 1, 2, 3, 4, 5],
         samples=samples))
     run.coverage['trusted_base'] += [
         'hand-written model Model/Packet.v tied to x/xibc (msg_server, packet keeper, EVM hook) by this differential run on real '
